@@ -329,6 +329,7 @@ class MarkdownNormalizer(Renderer):
         self._skip_next_blank_line: bool = False  # Skip blank line following heading
         self._current_inline_text: str = ""  # Track accumulated inline text for escape context
         self._in_heading: bool = False  # Track if we're rendering a heading
+        self._in_table_cell: bool = False  # Track if we're rendering a table cell
         self._list_spacing: ListSpacing = list_spacing
         self._current_list_tight: bool = False  # Whether current list should render tight
         self._first_item_separator: str | None = None  # Set while rendering a list's first item
@@ -677,6 +678,11 @@ class MarkdownNormalizer(Renderer):
         from marko.ext.pangu import PANGU_RE
 
         text = re.sub(PANGU_RE, " ", element.children)
+        if self._in_heading or self._in_table_cell:
+            # Paragraph text has its runs of spaces collapsed by line wrapping. Headings and
+            # table cells are not wrapped, so do the same here: how many spaces the source
+            # happened to have between two words is layout, not content.
+            text = re.sub(r"[ \t]+", " ", text)
         self._current_inline_text += text
         return text
 
@@ -757,7 +763,11 @@ class MarkdownNormalizer(Renderer):
 
     def render_table_cell(self, element: gfm_elements.TableCell) -> str:
         """Render a cell within a GFM table row."""
-        return self.render_children(element).replace("|", "\\|")
+        self._in_table_cell = True
+        try:
+            return self.render_children(element).replace("|", "\\|")
+        finally:
+            self._in_table_cell = False
 
     def render_url(self, element: gfm_elements.Url) -> str:
         """For GFM autolink URLs, just output the URL directly."""
